@@ -10,7 +10,7 @@ import (
 )
 
 func init() {
-	register("U4", "word scans look for zero bits in the inverted word: the word is inverted before it is shifted down (^w >> k). Inverting after the shift (^(w >> k)) turns the k zero bits shifted in at the top into ones, which the scan then reports as unset positions — values that are in the set, or positions beyond the word", ruleU4)
+	register("U4", "word scans look for zero bits in the inverted word: the word is inverted before it is shifted (^w >> k downwards, ^w << k upwards in the backward scan). Inverting after the shift (^(w >> k), ^(w << k)) turns the k zero bits shifted in into ones, which the scan then reports as unset positions — values that are in the set, or positions beyond the word", ruleU4)
 }
 
 func ruleU4(p *Prog) *RuleResult {
@@ -30,7 +30,7 @@ func ruleU4(p *Prog) *RuleResult {
 						continue
 					}
 					sh, ok := x.X.(*ssa.BinOp)
-					if !ok || sh.Op != token.SHR {
+					if !ok || (sh.Op != token.SHR && sh.Op != token.SHL) {
 						continue
 					}
 					if bt, ok := sh.Type().Underlying().(*types.Basic); !ok || bt.Info()&types.IsUnsigned == 0 {
@@ -69,10 +69,10 @@ func ruleU4(p *Prog) *RuleResult {
 						res.ok(c, p.ipos(x), "used as a count of leading/trailing ones that is bounded by a later comparison")
 						continue
 					}
-					res.bad(c, p.ipos(x), "the word is shifted right first and inverted afterwards, so the zero bits shifted in at the top become ones; "+why+", and a scan for the next unset position can land on a position that is set (or beyond the word)")
+					res.bad(c, p.ipos(x), "the word is shifted first and inverted afterwards, so the zero bits shifted in (at the top for >>, at the bottom for <<) become ones; "+why+", and a scan for the next unset position can land on a position that is set (or beyond the word)")
 				case *ssa.BinOp:
-					// the correct form: (^w) >> k
-					if x.Op != token.SHR {
+					// the correct form: (^w) >> k, (^w) << k
+					if x.Op != token.SHR && x.Op != token.SHL {
 						continue
 					}
 					if u, ok := x.X.(*ssa.UnOp); ok && u.Op == token.XOR {
